@@ -65,7 +65,7 @@ def decorated(sh, salt, sid):
     n = len(model.leaves(sh))
     edges = ['HD', 'NK', 'SB', 'OA']
     labels = ['S', 'NP', 'VP', 'PP', 'AP']
-    words = ['a', 'b,', '&c', '<d>', 'e"', "f'", 'gä', 'h#']
+    words = ['a', 'b,', '&c', '<d>', 'e"', "f'", 'gä', 'h#', '#']
     root = model.decorate(sh, lambda p, s: labels[(sum(p) + len(p) + salt) % len(labels)],
                           lambda p, s: edges[(sum(p) + salt) % len(edges)])
     toks = model.mk_tokens(n, words=[words[(salt + i) % len(words)] + str(i) for i in range(n)],
@@ -442,6 +442,9 @@ def run_chunk(chunk):
             for src in SRC:
                 for dest in DEST:
                     devs.append((P[:3] if src != 'brackets' else Pc[:3], [src, dest], {'gz': True}))
+                for enc in ('latin-1', 'utf-16'):
+                    devs.append((uni, [src, 'export4'], {'gz': True, 'src_enc': enc}))
+                    devs.append((uni, [src, 'tigerxml'], {'gz': True, 'src_enc': enc, 'dest_enc': enc}))
             for src in ('export3', 'tigerxml'):
                 for dest in ('export3', 'tigerxml'):
                     devs.append((P[:3], [src, dest], {'src_opts': ['continuous'], 'expect': 'continuous'}))
